@@ -47,6 +47,7 @@ type FnContract struct {
 	Pure     bool
 	External bool   // assumed, never verified
 	Inline   bool   // force inlining even though a contract exists (contract only used for entry)
+	IfaceMethod bool // contract of an interface method: copied onto every implementation (iface.go)
 	Opts     map[string]string
 	File     string
 	Params   []string // for external specs: parameter names (recv first)
